@@ -368,6 +368,66 @@ def run_cancel(case, rec):
     return (last['ctx'], last['objs'], tuple(sorted(outcomes)))
 
 
+def run_overlap(case, rec):
+    """(c') overlapping dispatch() calls on ONE AsyncDispatcher (what the aiohttp / starlette integrations do for concurrent HTTP
+    requests): two or three single requests in flight at the same time, every order in which their suspension points (gates in
+    methods / middleware / error handler) can complete; each caller must get the answer of its own request"""
+    import asyncio
+    from . import c10
+    kinds = case['kinds']
+    cfg = dict(concurrent=True, mw=case['mw'], eh=case['eh'], elems=tuple((k, True) for k in kinds))
+    want, runs = c10.expected(cfg)
+    sched = 0
+
+    def once(env):
+        mon = c10.Monitor()
+        d = c10.build(cfg, mon)
+        texts = [json.dumps({'jsonrpc': '2.0', 'method': k, 'params': [i], 'id': c10.id_of(i)}) for i, k in enumerate(kinds)]
+        loop = VLoop()
+
+        async def go():
+            return await asyncio.gather(*[d.dispatch(t, context=Ctx(i)) for i, t in enumerate(texts)])
+        try:
+            try:
+                out = ('ret', loop.run(go(), choose=lambda labels: env.choose(('gate', tuple(sorted(labels))), len(labels))))
+            except Exception as e:   # noqa
+                out = ('raise', '%s: %s' % (type(e).__name__, e))
+        finally:
+            loop.close()
+        return out, mon
+    for choices, (out, mon) in explore_choices(once, max_exec=50000):
+        sched += 1
+        rec.transitions += len(choices) + 1
+        c = dict(case, choices=list(choices))
+        if out[0] != 'ret':
+            rec.violation('C13:c:overlapping dispatches: dispatch raised', c, expected='responses', observed=out[1])
+            continue
+        for i, (r, e) in enumerate(zip(out[1], want)):
+            got = json.loads(r[0]) if r else None
+            ok = isinstance(got, dict) and typed_eq(got.get('id'), e['id'])
+            if ok and 'result' in e:
+                ok = 'result' in got and typed_eq(got['result'], e['result'])
+            elif ok:
+                er = got.get('error') or {}
+                ok = er.get('code') == e['code'] and ('message' not in e or (er.get('message') == e['message'] and er.get('data') == e['data']))
+            if not ok:
+                rec.violation('C13:c:overlapping dispatches on one AsyncDispatcher: a caller got another request\'s answer / a wrong answer', dict(c, caller=i),
+                              expected=e, observed=got)
+                break
+        ran = sorted(i for i, w in mon.events if w == 'run')
+        if ran != runs:
+            rec.violation('C13:c:overlapping dispatches: methods not executed exactly once each', c, expected=runs, observed=ran)
+        if cfg['mw'] != 'none':
+            entered = sorted(i for i, w in mon.events if w == 'enter')
+            if entered != list(range(len(kinds))):
+                rec.violation('C13:c:overlapping dispatches: middleware did not run exactly once for every request', c, expected=list(range(len(kinds))), observed=entered)
+    rec.traces += sched
+    rec.states += sched
+    rec.nontrivial_n += sched if sched > 1 else 0
+    rec.counters['overlap schedules'] += sched
+    return sched
+
+
 # ---- (c) -------------------------------------------------------------------------------------------------------
 PAIRS = [
     ('whoami', 'ping'), ('page', 'limits'),
@@ -441,6 +501,12 @@ def run_threads_case(case, rec):
     return (sched, interleaved, bad)
 
 
+def c10_gates(kind, mw, eh):
+    from . import c10
+    g = c10.KINDS.get(kind, (0, 'unknown'))
+    return g[0] + {'none': 0, 'before': 1, 'plainfn': 1}[mw] + (1 if eh == 'gate' and (kind == 'unknown' or g[1] not in ('ok', 'plain')) else 0)
+
+
 def gen_cases(ctx):
     names = [n for n, _ in ALPHABET]
     # (a)
@@ -457,6 +523,15 @@ def gen_cases(ctx):
     for req in ('batch', 'ctx', 'view', 'ok', 'pdok'):
         for steps in (1, 2, 3, 5):
             yield dict(part='cancel', request=req, steps=steps)
+    ok_kinds = ['g1ok', 'g2ok', 'g1perr', 'v1ok', 'plain', 'unknown', 'g1boom']
+    for n in (2, 3):
+        for kinds in itertools.product(ok_kinds if n == 2 else ['g1ok', 'g1perr', 'v1ok'], repeat=n):
+            for mw, eh in (('none', 'none'), ('before', 'none'), ('none', 'gate'), ('plainfn', 'none')):
+                if n == 3 and (mw, eh) != ('before', 'none'):
+                    continue
+                if any(c10_gates(k, mw, eh) > 2 for k in kinds):
+                    continue
+                yield dict(part='overlap', kinds=list(kinds), mw=mw, eh=eh)
     # (c)
     for pair in PAIRS:
         deep = ctx.pick(pair in PAIRS[:2], True)
@@ -477,6 +552,8 @@ def run_case(case, rec):
         obs = run_retention(case, r)
     elif case['part'] == 'cancel':
         obs = run_cancel(case, r)
+    elif case['part'] == 'overlap':
+        obs = run_overlap(case, r)
     else:
         obs = run_threads_case(case, r)
     r.counters['part ' + case['part']] += 1
